@@ -62,13 +62,7 @@ class IsCompletedObserver(FeatureObserver):
         self.remaining_ops_per_job = np.zeros(
             (dispatcher.instance.num_jobs, 1), dtype=int
         )
-        super().__init__(
-            dispatcher,
-            feature_types=feature_types,
-            subscribe=subscribe,
-        )
 
-    def initialize_features(self):
         def _has_same_features(observer: DispatcherObserver) -> bool:
             if not isinstance(observer, RemainingOperationsObserver):
                 return False
@@ -77,18 +71,28 @@ class IsCompletedObserver(FeatureObserver):
                 for feature_type in remaining_ops_feature_types
             )
 
-        self.set_features_to_zero()
-
         remaining_ops_feature_types = [
             feature_type
-            for feature_type in self.features.keys()
+            for feature_type in feature_types
             if feature_type != FeatureType.OPERATIONS
         ]
-        remaining_ops_observer = self.dispatcher.create_or_get_observer(
+        # Created (or retrieved) before subscribing, so that it is always
+        # updated and reset before this observer reads it.
+        self._remaining_ops_observer = dispatcher.create_or_get_observer(
             RemainingOperationsObserver,
             condition=_has_same_features,
             feature_types=remaining_ops_feature_types,
         )
+        super().__init__(
+            dispatcher,
+            feature_types=feature_types,
+            subscribe=subscribe,
+        )
+
+    def initialize_features(self):
+        self.set_features_to_zero()
+
+        remaining_ops_observer = self._remaining_ops_observer
         if FeatureType.JOBS in self.features:
             self.remaining_ops_per_job = remaining_ops_observer.features[
                 FeatureType.JOBS
